@@ -299,9 +299,11 @@ impl<'a> Gen<'a> {
                     *budget -= 1;
                     if self.o.odd_links && self.rng.chance(1, 20) {
                         // a link without content
-                        let kids = match self.rng.below(4) {
+                        let kids = match self.rng.below(6) {
                             0 => vec![],
                             1 => vec![H::Text(" ".into())],
+                            4 => vec![H::Text("\u{a0}".into())],
+                            5 => vec![H::Text(" \u{3000}\u{2003}".into())],
                             2 => vec![H::El("em".into(), vec![], vec![])],
                             _ => vec![H::El("span".into(), vec![], vec![H::Text(" ".into())])],
                         };
@@ -323,13 +325,16 @@ impl<'a> Gen<'a> {
                     v.push(el(name, kids));
                 }
                 11 if self.o.sup && depth > 0 => {
+                    // (the element may carry an id / class / colour like any other)
+                    let mut attrs = vec![];
+                    self.maybe_id(&mut attrs);
                     if self.rng.chance(1, 2) {
                         let d = format!("{}", self.rng.below(100));
-                        v.push(el("sup", vec![H::Text(d)]));
+                        v.push(H::El("sup".into(), attrs, vec![H::Text(d)]));
                     } else {
                         *budget -= 1;
                         let w = self.word();
-                        v.push(el("sup", vec![H::Text(w)]));
+                        v.push(H::El("sup".into(), attrs, vec![H::Text(w)]));
                     }
                 }
                 12 if self.o.br => {
